@@ -44,7 +44,15 @@ Json gen(sim::Rng& rng, int tier)
         Json c = Json::object();
         c["tag"] = static_cast<long long>(++tag);
         c["start_us"] = static_cast<int>(rng.below(5000));
-        if (rng.chance(0.5)) {
+        if (rng.chance(0.2)) {
+            // a keep-alive connection that lives longer than the time-outs although every request on it is prompt
+            c["kind"] = "chain";
+            long T = std::min(H, B);
+            int k = static_cast<int>(rng.range(3, 6));
+            Json gaps = Json::array();
+            for (int q = 0; q < k; ++q) gaps.push(static_cast<long>(rng.below(static_cast<u64>(std::max<long>(1, T - kMarginMs)))));
+            c["gaps_ms"] = gaps;
+        } else if (rng.chance(0.5)) {
             c["kind"] = "size";
             int k = static_cast<int>(rng.below(8));
             long total = k == 0 ? L - 1 : k == 1 ? L : k == 2 ? L + 1 : k == 3 ? L + static_cast<long>(rng.below(200)) : k == 4 ? L - static_cast<long>(rng.below(static_cast<u64>(std::min<long>(L - 60, 200)))) : static_cast<long>(60 + rng.below(static_cast<u64>(2 * L)));
@@ -117,7 +125,23 @@ void run(const Json& plan)
         std::vector<Step> st;
         st.push_back(httpw::step(Step::Connect));
         const i64 kAwait = 3000LL * 1000000LL;
-        if (cp.kind == "size") {
+        if (cp.kind == "chain") {
+            const Json& gaps = c.get("gaps_ms");
+            long T = static_cast<long>(std::min(H, B));
+            i64 total_ns = 0;
+            for (size_t q = 0; q < gaps.size() && q < 8; ++q) {
+                long g = static_cast<long>(std::max<i64>(0, gaps.at(q).as_int()));
+                if (g >= T - kMarginMs) g = std::max<long>(0, T - kMarginMs - 1); // every request starts well within the time-outs
+                st.push_back(httpw::step(Step::Pause, g * 1000000LL));
+                st.push_back(httpw::send_step(actors::http_request("GET", "/echo/" + cp.tag + "-" + std::to_string(q), { { "Host", "s" } }, "")));
+                st.push_back(httpw::step(Step::Await, kAwait, static_cast<int>(q + 1)));
+                total_ns += g * 1000000LL;
+                cp.before = static_cast<int>(q + 1);
+            }
+            longest = std::max(longest, total_ns);
+            cp.stall = static_cast<long>(total_ns / 1000000);
+            st.push_back(httpw::step(Step::Close));
+        } else if (cp.kind == "size") {
             cp.total = static_cast<long>(std::max<i64>(70, c.num("total", 100)));
             cp.before = std::max(0, std::min(3, static_cast<int>(c.num("requests_before", 0))));
             for (int k = 0; k < cp.before; ++k) {
@@ -209,6 +233,21 @@ void run(const Json& plan)
             } else {
                 if (status == 413) r.violation("C14.size:request-within-limit-refused", who + ": " + sz + " was refused with 413");
                 else if (!handler_ran(cp.tag) || status != 200) r.violation("C14.size:request-within-limit-not-served", who + ": " + sz + " was answered " + std::to_string(status) + (handler_ran(cp.tag) ? "" : " and never reached the handler"));
+            }
+        } else if (cp.kind == "chain") {
+            long T = static_cast<long>(std::min(H, B));
+            r.probe(cp.stall > T + kScanMs ? "chain-outlives-time-out" : "chain-short");
+            for (int q = 0; q < cp.before; ++q) {
+                int stq = cl->reader.done.size() > static_cast<size_t>(q) ? cl->reader.done[static_cast<size_t>(q)].status : 0;
+                std::string what = who + ": request " + std::to_string(q + 1) + " of " + std::to_string(cp.before) + " prompt requests on a keep-alive connection that had been open for up to " + std::to_string(cp.stall) + " ms (header/body time-outs " + std::to_string(H) + "/" + std::to_string(B) + " ms, every idle gap below the time-out)";
+                if (stq == 408) {
+                    r.violation("C14.time:request-within-time-outs-timed-out:keep-alive-chain", what + " was answered 408");
+                    break;
+                }
+                if (stq != 200 || !handler_ran(cp.tag + "-" + std::to_string(q))) {
+                    r.violation("C14.time:request-within-time-outs-not-served:keep-alive-chain", what + " was answered " + std::to_string(stq));
+                    break;
+                }
             }
         } else if (cp.kind == "time") {
             std::string what = who + ": stalled " + std::to_string(cp.stall) + " ms at '" + cp.point + "' with header/body time-outs " + std::to_string(H) + "/" + std::to_string(B) + " ms";
